@@ -3,6 +3,8 @@ check, reverts, and stores patch + result row under /verif/seeded/harmless/HR-<k
 import json, os, pathlib, shutil, subprocess, sys, time
 from concurrent.futures import ThreadPoolExecutor
 
+REPO = os.environ.get("VERIF_REPO", "/repo")   # the tree the patches are applied to (a scratch clone when set)
+
 ROOT = pathlib.Path(__file__).resolve().parent.parent
 out_dir = pathlib.Path(sys.argv[1])
 par = int(sys.argv[2]) if len(sys.argv) > 2 else 6
@@ -31,11 +33,11 @@ def run(p):
                "wall_s": round(time.time() - t, 1), "tail": "" if rc in (0, 1) else o[-600:]}
 
 
-assert sh("git status --porcelain --untracked-files=no", cwd="/repo")[1].strip() == "", "/repo is not clean"
+assert sh("git status --porcelain --untracked-files=no", cwd=REPO)[1].strip() == "", "/repo is not clean"
 for d in sorted([x for x in out_dir.iterdir() if x.is_dir() and x.name.isdigit()], key=lambda x: int(x.name)):
     if only and d.name not in only:
         continue
-    rc, o = sh(["git", "apply", str(d / "patch.diff")], cwd="/repo")
+    rc, o = sh(["git", "apply", str(d / "patch.diff")], cwd=REPO)
     if rc != 0:
         print(d.name, "patch does not apply:", o[:200])
         continue
@@ -43,7 +45,7 @@ for d in sorted([x for x in out_dir.iterdir() if x.is_dir() and x.name.isdigit()
         with ThreadPoolExecutor(par) as ex:
             row = dict(ex.map(run, props))
     finally:
-        sh("git checkout -- .", cwd="/repo")
+        sh("git checkout -- .", cwd=REPO)
     dst = ROOT / "seeded" / "harmless" / f"HR-{d.name}"
     dst.mkdir(parents=True, exist_ok=True)
     for f in ("patch.diff", "README.md"):
